@@ -191,4 +191,203 @@ theorem acyclic_extend (frags : List Frag) (nm : String) (body : List Sel) (ha :
       potL_congr nm _ _ (agree (frags.length + 1)) body hbody, hfixfun]
     omega
 
+/-! ### the check is COMPLETE: every declaratively acyclic fragment set passes it -/
+
+mutual
+/-- names of the fragments spread anywhere inside a selection -/
+def spreadsSel : Sel → List String
+  | .field _ _ _ sub => spreadsL sub
+  | .inline _ ss => spreadsL ss
+  | .spread n _ => [n]
+def spreadsL : List Sel → List String
+  | [] => []
+  | s :: ss => spreadsSel s ++ spreadsL ss
+end
+
+/-- declarative acyclicity (what NoFragmentCycles guarantees): some rank strictly decreases along every
+    spread of a DEFINED fragment inside a fragment body -/
+def Acyclic (frags : List Frag) : Prop :=
+  ∃ r : String → Nat, ∀ f ∈ frags, ∀ g ∈ spreadsL f.sels, (∃ f' ∈ frags, f'.name = g) → r g < r f.name
+
+/-- UniqueFragmentNames -/
+def UniqueNames (frags : List Frag) : Prop := (frags.map (·.name)).Nodup
+
+mutual
+theorem pot_congr_on (w1 w2 : String → Nat) : ∀ s : Sel, (∀ g ∈ spreadsSel s, w1 g = w2 g) → pot w1 s = pot w2 s
+  | .field a n d sub, h => by
+    simp only [spreadsSel] at h
+    rw [pot_field, pot_field, potL_congr_on w1 w2 sub h]
+  | .inline d ss, h => by
+    simp only [spreadsSel] at h
+    rw [pot_inline, pot_inline, potL_congr_on w1 w2 ss h]
+  | .spread n d, h => by
+    rw [pot_spread, pot_spread, h n (by simp [spreadsSel])]
+theorem potL_congr_on (w1 w2 : String → Nat) : ∀ l : List Sel, (∀ g ∈ spreadsL l, w1 g = w2 g) → potL w1 l = potL w2 l
+  | [], _ => by rw [potL_nil, potL_nil]
+  | s :: ss, h => by
+    simp only [spreadsL, List.mem_append] at h
+    rw [potL_cons, potL_cons, pot_congr_on w1 w2 s (fun g hg => h g (Or.inl hg)),
+      potL_congr_on w1 w2 ss (fun g hg => h g (Or.inr hg))]
+end
+
+mutual
+theorem spread_lt_pot (w : String → Nat) : ∀ s : Sel, ∀ g ∈ spreadsSel s, w g + 1 ≤ pot w s
+  | .field a n d sub, g, hg => by
+    simp only [spreadsSel] at hg
+    rw [pot_field]; have := spread_lt_potL w sub g hg; omega
+  | .inline d ss, g, hg => by
+    simp only [spreadsSel] at hg
+    rw [pot_inline]; have := spread_lt_potL w ss g hg; omega
+  | .spread n d, g, hg => by
+    simp only [spreadsSel, List.mem_singleton] at hg
+    subst hg
+    rw [pot_spread]; omega
+theorem spread_lt_potL (w : String → Nat) : ∀ l : List Sel, ∀ g ∈ spreadsL l, w g + 1 ≤ potL w l
+  | [], g, hg => by simp [spreadsL] at hg
+  | s :: ss, g, hg => by
+    simp only [spreadsL, List.mem_append] at hg
+    rw [potL_cons]
+    rcases hg with hg | hg
+    · have := spread_lt_pot w s g hg; omega
+    · have := spread_lt_potL w ss g hg; omega
+end
+
+/-- soundness of the check: the computed weights are a rank -/
+theorem acyclic_sound (frags : List Frag) (h : acyclic frags = true) : Acyclic frags := by
+  have hc := (acyclic_iff frags).mp h
+  refine ⟨W frags (frags.length + 1), ?_⟩
+  intro f hf g hg _
+  have h1 := spread_lt_potL (W frags (frags.length + 1)) f.sels g hg
+  have h2 := hc f hf
+  omega
+
+theorem firstW_unique (w : String → Nat) :
+    ∀ frags : List Frag, UniqueNames frags → ∀ f ∈ frags, firstW w f.name frags = potL w f.sels := by
+  intro frags
+  induction frags with
+  | nil => intro _ f hf; cases hf
+  | cons f0 fs ih =>
+    intro hu f hf
+    simp only [UniqueNames, List.map_cons, List.nodup_cons] at hu
+    simp only [firstW]
+    cases hf with
+    | head => simp
+    | tail _ hf =>
+      have hne : (f.name == f0.name) = false := by
+        simp
+        intro heq
+        exact hu.1 (by rw [← heq]; exact List.mem_map_of_mem (f := (·.name)) hf)
+      simp only [hne, Bool.false_eq_true, if_false]
+      exact ih hu.2 f hf
+
+theorem firstW_undefined (w : String → Nat) (g : String) :
+    ∀ frags : List Frag, (∀ f ∈ frags, f.name ≠ g) → firstW w g frags = 0 := by
+  intro frags
+  induction frags with
+  | nil => intro _; rfl
+  | cons f0 fs ih =>
+    intro h
+    have hne : (g == f0.name) = false := by
+      simp; exact fun heq => h f0 (by simp) heq.symm
+    simp only [firstW, hne, Bool.false_eq_true, if_false]
+    exact ih (fun f hf => h f (by simp [hf]))
+
+theorem W_undefined (frags : List Frag) (g : String) (h : ∀ f ∈ frags, f.name ≠ g) : ∀ k, W frags k g = 0 := by
+  intro k
+  cases k with
+  | zero => simp [W, iter, wOf, List.lookup]
+  | succ k => rw [W_succ]; exact firstW_undefined _ g frags h
+
+/-- a fragment of rank < m is stable from round m on -/
+theorem W_stable (frags : List Frag) (hu : UniqueNames frags) (r : String → Nat)
+    (hr : ∀ f ∈ frags, ∀ g ∈ spreadsL f.sels, (∃ f' ∈ frags, f'.name = g) → r g < r f.name) :
+    ∀ (m : Nat) (f : Frag), f ∈ frags → r f.name < m → ∀ k, m ≤ k → W frags (k + 1) f.name = W frags k f.name := by
+  intro m
+  induction m with
+  | zero => intro f _ h; omega
+  | succ m ih =>
+    intro f hf hrf k hk
+    obtain ⟨k', rfl⟩ : ∃ k', k = k' + 1 := ⟨k - 1, by omega⟩
+    rw [W_succ, W_succ frags k', firstW_unique _ frags hu f hf, firstW_unique _ frags hu f hf]
+    apply potL_congr_on
+    intro g hg
+    by_cases hdef : ∃ f' ∈ frags, f'.name = g
+    · obtain ⟨f', hf', hn⟩ := hdef
+      have := hr f hf g hg ⟨f', hf', hn⟩
+      have := ih f' hf' (by rw [hn]; omega) k' (by omega)
+      rw [hn] at this
+      exact this
+    · have hund : ∀ f' ∈ frags, f'.name ≠ g := fun f' hf' heq => hdef ⟨f', hf', heq⟩
+      rw [W_undefined frags g hund, W_undefined frags g hund]
+
+theorem filter_length_le {α : Type} (p q : α → Bool) :
+    ∀ l : List α, (∀ x ∈ l, p x = true → q x = true) → (l.filter p).length ≤ (l.filter q).length := by
+  intro l
+  induction l with
+  | nil => intro _; simp
+  | cons x xs ih =>
+    intro h
+    have := ih (fun y hy => h y (by simp [hy]))
+    have hx := h x (by simp)
+    simp only [List.filter_cons]
+    cases hp : p x <;> cases hq : q x <;> simp_all <;> omega
+
+theorem filter_length_lt {α : Type} (p q : α → Bool) :
+    ∀ l : List α, (∀ x ∈ l, p x = true → q x = true) → (∃ x ∈ l, q x = true ∧ p x = false) →
+      (l.filter p).length < (l.filter q).length := by
+  intro l
+  induction l with
+  | nil => intro _ ⟨x, hx, _⟩; cases hx
+  | cons x xs ih =>
+    intro h ⟨y, hy, hqy, hpy⟩
+    have hle := filter_length_le p q xs (fun z hz => h z (by simp [hz]))
+    have hx := h x (by simp)
+    simp only [List.filter_cons]
+    simp only [List.mem_cons] at hy
+    rcases hy with rfl | hy
+    · simp [hqy, hpy]; omega
+    · have := ih (fun z hz => h z (by simp [hz])) ⟨y, hy, hqy, hpy⟩
+      cases hp : p x <;> cases hq : q x <;> simp_all <;> omega
+
+/-- **completeness of the check**: unique names + a decreasing rank ⇒ `acyclic frags = true` -/
+theorem acyclic_complete (frags : List Frag) (hu : UniqueNames frags) (ha : Acyclic frags) : acyclic frags = true := by
+  obtain ⟨r0, hr0⟩ := ha
+  -- normalise the rank: number of fragments of strictly smaller rank (< number of fragments)
+  let r : String → Nat := fun n => (frags.filter (fun h => decide (r0 h.name < r0 n))).length
+  have hbound : ∀ f ∈ frags, r f.name < frags.length := by
+    intro f hf
+    have := filter_length_lt (fun h => decide (r0 h.name < r0 f.name)) (fun _ => true) frags (fun _ _ _ => rfl)
+      ⟨f, hf, rfl, by simp⟩
+    have hall : (frags.filter (fun _ => true)).length = frags.length := by
+      rw [List.filter_eq_self.mpr (fun _ _ => rfl)]
+    rw [hall] at this
+    exact this
+  have hr : ∀ f ∈ frags, ∀ g ∈ spreadsL f.sels, (∃ f' ∈ frags, f'.name = g) → r g < r f.name := by
+    intro f hf g hg hdef
+    have hlt := hr0 f hf g hg hdef
+    obtain ⟨f', hf', hn⟩ := hdef
+    apply filter_length_lt
+    · intro x _ hx
+      simp only [decide_eq_true_eq] at hx ⊢
+      omega
+    · exact ⟨f', hf', by simp [hn, hlt], by simp [hn]⟩
+  rw [acyclic_iff]
+  intro f hf
+  have hst := W_stable frags hu r hr frags.length
+  rw [W_succ frags frags.length f.name, firstW_unique _ frags hu f hf]
+  apply Nat.le_of_eq
+  apply potL_congr_on
+  intro g hg
+  by_cases hdef : ∃ f' ∈ frags, f'.name = g
+  · obtain ⟨f', hf', hn⟩ := hdef
+    have := hst f' hf' (hbound f' hf') frags.length (Nat.le_refl _)
+    rw [hn] at this
+    exact this
+  · have hund : ∀ f' ∈ frags, f'.name ≠ g := fun f' hf' heq => hdef ⟨f', hf', heq⟩
+    rw [W_undefined frags g hund, W_undefined frags g hund]
+
+/-- under unique names the decidable check IS declarative acyclicity -/
+theorem acyclic_iff_Acyclic (frags : List Frag) (hu : UniqueNames frags) : acyclic frags = true ↔ Acyclic frags :=
+  ⟨acyclic_sound frags, acyclic_complete frags hu⟩
+
 end PyGql.Depth.Lemmas
